@@ -255,7 +255,32 @@ def _members(m):
 
 def _ebunch(fmt, items):
     if fmt == 5:
-        return {dec_id(it["idx"]): _members(it["members"]) for it in items}
+        # the caller's containers may be sets, and the same set object may appear more than once (two edges with the
+        # same tail, or tail and head given as one set): the network must copy what it is given
+        cache = {}
+
+        def as_shared_sets(ms):
+            if not isinstance(ms, (list, tuple)) or len(ms) != 2:
+                return ms
+            try:
+                t, h = ms
+                kt, kh = ("s", tuple(t)), ("s", tuple(h))
+                st = cache.setdefault(kt, set(t)) if len(set(t)) == len(t) else t
+                sh = cache.setdefault(kh, set(h)) if len(set(h)) == len(h) else h
+                return type(ms)((st, sh))
+            except TypeError:
+                return ms
+        out = {}
+        for it in items:
+            ms = as_shared_sets(_members(it["members"]))
+            if isinstance(ms, (list, tuple)) and len(ms) == 2 and "tail" in it["members"]:
+                # oracle: the model iterates the members in the order the (set) containers iterate
+                if isinstance(ms[0], set):
+                    it["members"]["tail"] = [enc_id(x) for x in ms[0]]
+                if isinstance(ms[1], set):
+                    it["members"]["head"] = [enc_id(x) for x in ms[1]]
+            out[dec_id(it["idx"])] = ms
+        return out
     out = []
     for it in items:
         ms = _members(it["members"])
